@@ -26,7 +26,8 @@ ID = "C03"
 LEVEL = "exploration"
 
 FORMATS = ["nt", "turtle", "longturtle", "n3", "xml", "pretty-xml", "json-ld", "hext"]
-OPTIONS = ["plain", "base+prefixes"]
+OPTIONS = ["plain", "base+prefixes", "filebase+prefixes"]
+BASES = {"base+prefixes": EX, "filebase+prefixes": EX + "dir/doc"}  # a namespace-like base and a file-like base (its last segment is not part of relative references)
 PARSE_FMT = {"longturtle": "turtle", "pretty-xml": "xml"}
 
 NUMERIC = {
@@ -46,7 +47,7 @@ NUMERIC = {
     "long": ["1"], "byte": ["1", "128"], "nonNegativeInteger": ["0", "-1"],
 }
 
-IRIS = [EX + "a", EX + "b#c", EX + "1digit", EX + "end.", EX + "a(b)", EX + "a%20b", EX + "ns/", EX, "http://other.org/x/y",
+IRIS = [EX + "dir/x", EX + "dir/doc#frag", EX + "dir/doc", EX + "dir/", EX + "dir/sub/y", EX + "dir/doc?q=1", EX + "a", EX + "b#c", EX + "1digit", EX + "end.", EX + "a(b)", EX + "a%20b", EX + "ns/", EX, "http://other.org/x/y",
         str(RDF.type), str(RDF.nil), str(RDF.first), str(XSD.string), "urn:x:y", "http://ex.org/é", EX + "a_b-c", EX + "a:b", "http://ex.org"]
 
 
@@ -122,7 +123,7 @@ def roundtrip(triples, fmt, option, horizon=5.0):
     orig = graph_rows(g)
     kw = {}
     if option != "plain" and fmt not in ("nt", "hext"):
-        kw["base"] = EX
+        kw["base"] = BASES[option]
     try:
         with seams.watchdog(horizon):
             out = g.serialize(format=fmt, **kw)
@@ -136,7 +137,7 @@ def roundtrip(triples, fmt, option, horizon=5.0):
         with seams.watchdog(horizon):
             # the base handed to the serializer is the document's base: hand it to the parser as well
             # (Turtle/RDF-XML embed it; JSON-LD output relies on the document location)
-            back = Graph(bind_namespaces="none").parse(data=out, format=PARSE_FMT.get(fmt, fmt), **({"publicID": EX} if kw else {}))
+            back = Graph(bind_namespaces="none").parse(data=out, format=PARSE_FMT.get(fmt, fmt), **({"publicID": kw["base"]} if kw else {}))
     except seams.Timeout:
         return ("parse-does-not-terminate", {"output": out[:500]})
     except Exception as e:  # noqa: BLE001
@@ -254,13 +255,14 @@ def _topo_batch(arg):
         for fmt in formats:
             if fmt in ("xml", "pretty-xml") and not xml_expressible_strict(triples):
                 continue
-            n += 1
-            if tc != "bnodes=0":
-                nontriv += 1
-            v = roundtrip(triples, fmt, "plain")
-            if v:
-                viols.append({"sig": "%s|%s|%s" % (fmt, v[0], tc), "detail": v[1],
-                              "case": {"triples": [list(map(list, tr)) for tr in triples], "format": fmt, "option": "plain", "embedding": "topology"}})
+            for opt in ("plain", "base+prefixes"):
+                n += 1
+                if tc != "bnodes=0":
+                    nontriv += 1
+                v = roundtrip(triples, fmt, opt)
+                if v:
+                    viols.append({"sig": "%s|%s|%s" % (fmt, v[0], tc), "detail": v[1],
+                                  "case": {"triples": [list(map(list, tr)) for tr in triples], "format": fmt, "option": opt, "embedding": "topology"}})
     return viols, n, nontriv
 
 
@@ -299,7 +301,7 @@ def run(ctx):
     ctx.cov["exhaustive"] = True
     ctx.cov["rule"] = ("(A) every term of the table (all strings of length <=%d over a 12-char alphabet x {plain, @en, xsd:string, custom datatype}, numeric/"
                        "boolean/date lexical table, IRI table) embedded as object of an IRI, of a blank node, as list member (IRIs also as subject / predicate) x 8 "
-                       "formats x {plain, base+prefixes}; (B) every graph with <=%d triples over {A,b1,b2,b3,nil} x {P,first,rest} x one literal, one per blank-"
+                       "formats x {plain, namespace-like base + prefixes, file-like base + prefixes}; (B) every graph with <=%d triples over {A,b1,b2,b3,nil} x {P,first,rest} x one literal, one per blank-"
                        "node renaming class. Non-trivial: term needs escaping/shorthand/splitting, or graph has a blank node." % (3 if thorough else 2, 3 if thorough else 2))
     ctx.sample({"triples": [[I("a"), I("p"), L('"\n')]], "format": "turtle", "option": "plain"})
     ctx.assumptions += ["RDF/XML is only given predicates that split into namespace + NCName; literal subjects and blank-node predicates are not generated",
